@@ -1,8 +1,168 @@
 import Genshi.Wire
+import Genshi.Model.Lru
+import Genshi.Model.Loader
 namespace Driver.C15
-open Genshi
+open Genshi Genshi.Sexp Genshi.Lru
 
-/-- stub: the model driver for C15 is not built yet -/
-def handle : List Sexp → Option Sexp := fun _ => none
+/-! ### LRU container: `C15 lru <cap> <nkeys> ( ops… )` -/
+
+def op? : Sexp → Option (Op Nat Nat)
+  | .list [.atom "G", k] => do let k ← k.toNat?; pure (.get k)
+  | .list [.atom "P", k, v] => do let k ← k.toNat?; let v ← v.toNat?; pure (.set k v)
+  | .list [.atom "C", k] => do let k ← k.toNat?; pure (.contains k)
+  | .atom "L" => some .len
+  | .atom "I" => some .iter
+  | _ => none
+
+def outS : Out Nat Nat → Sexp
+  | .val v => .list [.atom "v", ofNat v]
+  | .keyError => .atom "KE"
+  | .unit => .atom "U"
+  | .bool b => ofBool b
+  | .nat n => .list [.atom "n", ofNat n]
+  | .keys ks => .list (.atom "k" :: ks.map ofNat)
+
+def optS : Option Nat → Sexp
+  | none => .atom "N"
+  | some n => ofNat n
+
+def idsS : Option (List Nat) → Sexp
+  | none => .atom "loop"
+  | some l => .list (l.map ofNat)
+
+/-- the full linked structure: head, tail, len(_dict), the nodes along `nxt` from head
+    (id prv nxt key value), the ids along `prv` from tail, the `_dict` entries over the key
+    universe `0..nkeys-1`, and the model's own well-formedness verdict -/
+def dumpS (c : CLru Nat Nat) (nkeys : Nat) : Sexp :=
+  let fwd := walkNxt c.heap (c.size + 2) c.head
+  let bwd := walkPrv c.heap (c.size + 2) c.tail
+  let nodes : Sexp := match fwd with
+    | none => .atom "loop"
+    | some l => .list (l.map fun i =>
+        let n := c.heap i
+        .list [ofNat i, optS n.prv, optS n.nxt, ofNat n.key, ofNat n.val])
+  let keys := List.range nkeys
+  let dict : List Sexp := keys.filterMap fun k => (c.dict k).map fun i => .list [ofNat k, ofNat i]
+  .list [optS c.head, optS c.tail, ofNat c.size, nodes, idsS bwd, .list dict,
+         ofBool (wfCheck c keys)]
+
+def adumpS (a : ALru Nat Nat) : Sexp := .list (a.items.map fun (k, v) => .list [ofNat k, ofNat v])
+
+def lruRun (cap nkeys : Nat) (ops : List (Op Nat Nat)) : Sexp :=
+  let (a, aouts) := arun (aempty cap) ops
+  let abs := .list [.list (aouts.map outS), adumpS a]
+  match crun (empty cap ⟨none, none, 0, 0⟩) ops with
+  | none => .list [.atom "crash", abs]
+  | some (c, outs) => .list [.list [.list (outs.map outS), dumpS c nkeys], abs]
+
+/-- `C15 lrutrace`: output and complete structure after *every* step -/
+def lruTrace (nkeys : Nat) : CLru Nat Nat → ALru Nat Nat → List (Op Nat Nat) → List Sexp
+  | _, _, [] => []
+  | c, a, op :: ops =>
+    let (a', ao) := astep a op
+    match cstep c op with
+    | none => [.atom "crash"]
+    | some (c', o) =>
+      .list [outS o, dumpS c' nkeys, outS ao, adumpS a'] :: lruTrace nkeys c' a' ops
+
+/-! ### loader histories: `C15 hist <cap> <autoReload> <hasCallback> ( path… ) ( ops… )` -/
+section
+open Genshi.Loader
+
+def entry? : Sexp → Option Entry
+  | .list [.atom "D", d, insub] => do let d ← d.toNat?; let b ← insub.toBool?; pure (.dir d b)
+  | .list [.atom "F", d, c] => do let d ← d.toNat?; let c ← c.toBool?; pure (.fn d c)
+  | _ => none
+
+def optNat? : Sexp → Option (Option Nat)
+  | .atom "N" => some none
+  | x => do let n ← x.toNat?; pure (some n)
+
+def rel? : Sexp → Option Rel
+  | .atom "N" => some .none
+  | .list [.atom "R", b] => do let b ← b.toBool?; pure (.rel b)
+  | .list [.atom "A", d, b] => do let d ← d.toNat?; let b ← b.toBool?; pure (.abs d b)
+  | _ => none
+
+def fault? : Sexp → Option Fault
+  | .atom "N" => some .none
+  | .atom "io" => some .io
+  | .atom "other" => some .other
+  | _ => none
+
+def loc? (d sub base : Sexp) : Option Loc := do
+  let d ← d.toNat?; let b ← sub.toBool?; let n ← base.toNat?; pure ⟨d, b, n⟩
+
+def hop? : Sexp → Option HOp
+  | .list [.atom "W", d, sub, base, c, bad] => do
+      let l ← loc? d sub base; let c ← c.toNat?; let b ← bad.toBool?; pure (.write l c b)
+  | .list [.atom "T", d, sub, base] => do let l ← loc? d sub base; pure (.touch l)
+  | .list [.atom "X", d, sub, base] => do let l ← loc? d sub base; pure (.delete l)
+  | .list [.atom "L", base, sub, absd, rel, cls, enc, cb, fault] => do
+      let base ← base.toNat?; let sub ← sub.toBool?; let absd ← optNat? absd; let rel ← rel? rel
+      let cls ← cls.toNat?; let enc ← enc.toNat?; let cb ← cb.toBool?; let fault ← fault? fault
+      pure (.load ⟨base, sub, absd, rel, cls, enc, cb, fault⟩)
+  | _ => none
+
+def errS : Err → Sexp
+  | .notFound => .atom "TemplateNotFound"
+  | .syntaxError => .atom "TemplateSyntaxError"
+  | .callback => .atom "CallbackError"
+  | .loadFunc => .atom "LoadFuncError"
+  | .noSearchPath => .atom "TemplateError"
+
+def tmplS (t : Tmpl) : Sexp :=
+  .list [ofNat t.obj, ofNat t.loc.dir, ofBool t.loc.sub, ofNat t.loc.base, ofNat t.content,
+         ofNat t.cls, ofNat t.enc, ofBool t.absName]
+
+def resS : Res → Sexp
+  | .ok t => .list [.atom "ok", tmplS t]
+  | .err e => .list [.atom "err", errS e]
+
+def keyS (k : Key) : Sexp := .list [optS k.absd, ofBool k.sub, ofNat k.base]
+
+def utdS (s : LState) (keys : List Key) : Sexp :=
+  .list (keys.filterMap fun k => (s.utd k).map fun u =>
+    match u with
+    | .never => .list [keyS k, .atom "N"]
+    | .mtime loc m => .list [keyS k, .list [ofNat loc.dir, ofBool loc.sub, ofNat loc.base, ofNat m]])
+
+/-- cache (most recent first, with identities), callbacks, parses, lock depth, and `_uptodate`
+    over the keys requested so far (in order of first request) -/
+def lstateS (s : LState) (keys : List Key) : Sexp :=
+  .list [.list (s.cache.items.map fun (k, t) => .list [keyS k, ofNat t.obj]),
+         ofNat s.cbLog.length, ofNat s.parsed.length, ofNat s.lock, utdS s keys]
+
+def histRun (cfg : Cfg) : World → List Key → List HOp → List Sexp
+  | _, _, [] => []
+  | w, keys, op :: ops =>
+    let (w', o) := hstep cfg w op
+    let keys' := match op with
+      | .load r => match resolve cfg.path.isEmpty r with
+        | some k => if keys.contains k then keys else keys ++ [k]
+        | none => keys
+      | _ => keys
+    let here : Sexp := match op, o with
+      | .load _, some res => .list [resS res, lstateS w'.ls keys']
+      | .load _, none => .atom "unmodelled"
+      | _, _ => .atom "U"
+    here :: histRun cfg w' keys' ops
+end
+
+def handle : List Sexp → Option Sexp
+  | [.atom "hist", cap, ar, cb, .list path, .list ops] => do
+      let cap ← cap.toNat?; let ar ← ar.toBool?; let cb ← cb.toBool?
+      let path ← path.mapM entry?
+      let ops ← ops.mapM hop?
+      pure (.list (histRun ⟨path, ar, cap, cb⟩ (Genshi.Loader.World.init cap) [] ops))
+  | [.atom "lrutrace", cap, nkeys, .list ops] => do
+      let cap ← cap.toNat?; let nkeys ← nkeys.toNat?
+      let ops ← ops.mapM op?
+      pure (.list (lruTrace nkeys (empty cap ⟨none, none, 0, 0⟩) (aempty cap) ops))
+  | [.atom "lru", cap, nkeys, .list ops] => do
+      let cap ← cap.toNat?; let nkeys ← nkeys.toNat?
+      let ops ← ops.mapM op?
+      pure (lruRun cap nkeys ops)
+  | _ => none
 
 end Driver.C15
